@@ -109,6 +109,30 @@ Dedup(s) == DedupOuter([k \in 1..Len(s) |-> [r |-> s[k], dup |-> FALSE, dups |->
 \* checkRules' collector followed by what actionLint does before the reporters run
 Process(order) == LET col == CollectAll(order) srt == SortReports(col) IN Dedup(srt)
 
+\* SortReports for a tree whose cmpDiagnostics compares all diagnostics (`all`, as pinned: fix 1d0c953) or only the
+\* first one (a tree without that fix); the comparison is written lazily (cmp.Or returns the first non-zero of its
+\* seven arguments) because JUDGE evaluates it tens of thousands of times. Diagnostics are already sorted.
+CmpDiagnosticsV(all, sa, sb) ==
+  IF Len(sa) = 0 THEN 0 - 1 ELSE IF Len(sb) = 0 THEN 1
+  ELSE IF all THEN CmpSeqD(sa, sb, 1) ELSE CmpDiags(sa[1], sb[1])
+CmpReportsV(all, a, b) ==
+  IF a.path # b.path THEN Cmp(a.path, b.path)
+  ELSE IF a.first # b.first THEN Cmp(a.first, b.first)
+  ELSE IF a.last # b.last THEN Cmp(a.last, b.last)
+  ELSE IF a.sev # b.sev THEN Cmp(a.sev, b.sev)
+  ELSE IF a.rep # b.rep THEN Cmp(a.rep, b.rep)
+  ELSE IF a.sum # b.sum THEN Cmp(a.sum, b.sum)
+  ELSE CmpDiagnosticsV(all, a.diags, b.diags)
+RECURSIVE BubbleV(_, _, _)
+BubbleV(all, s, j) == IF j > 1 /\ CmpReportsV(all, s[j], s[j - 1]) < 0 THEN BubbleV(all, Swap(s, j, j - 1), j - 1) ELSE s
+RECURSIVE ISortV(_, _, _)
+ISortV(all, s, i) == IF i > Len(s) THEN s ELSE ISortV(all, BubbleV(all, s, i), i + 1)
+ProcessV(all, order) ==
+  LET col == CollectAll(order)
+      pre == [k \in 1..Len(col) |-> [col[k] EXCEPT !.diags = SortDiags(@)]]
+      srt == ISortV(all, pre, 2) IN
+  Dedup(srt)
+
 \* What the reporters read.  Console: per report above the minimal severity that is not a hidden duplicate.
 RKey(r) == [path |-> r.path, sym |-> r.sym, owner |-> r.owner, first |-> r.first, last |-> r.last, rlast |-> r.rlast,
             rule |-> r.rule, name |-> r.name, sev |-> r.sev, rep |-> r.rep, sum |-> r.sum, det |-> r.det,
@@ -252,6 +276,7 @@ NextC == \E a \in Atoms : AddJob(a) \/ AddToLastJob(a)
 SpecC == InitC /\ [][NextC]_vars
 
 Inv_C11 == Premise(jobs) => C11Holds(jobs)
+Inv_LazyAgrees == \A o \in Interleavings(jobs) : ProcessV(TRUE, o) = Process(o)
 \* vacuity guards: the premise is satisfiable by bags with cross-job ties, and not every bag satisfies C11
 Never_PremiseWithTies == ~(Len(jobs) >= 2 /\ Premise(jobs) /\ \E i, j \in 1..Len(jobs) : i # j /\ RKey(jobs[i][1]) = RKey(jobs[j][1]))
 Never_C11Fails == C11Holds(jobs)
